@@ -719,6 +719,57 @@ static void mutual_owners_released_once(vh_rng* r) {
   vh_count("rings_of_mutual_owners");
 }
 
+/* ---------- a run-time type constructed again in place ----------
+** construct(T, name, size, instances...) on a Type object that has been in use replaces its definition: from then on
+** size(T) is the new size, objects of T get that many usable bytes and the new definition's constructor and
+** destructor -- whatever the first definition's lookups left behind in the type object. */
+static long rd_ctor[2], rd_dtor[2];
+static void rdA_new(var self, var args) { (void)self; (void)args; rd_ctor[0]++; }
+static void rdA_del(var self) { (void)self; rd_dtor[0]++; }
+static void rdB_new(var self, var args) { (void)args; rd_ctor[1]++; memset(self, 0x6B, 64); }
+static void rdB_del(var self) { rd_dtor[1]++; unsigned char* p = self; for (int i = 0; i < 64; i++) { if (p[i] != 0x6B) { rd_dtor[1] += 1000; break; } } }
+static size_t rd_size40(void) { return 40; }
+static var rd_instance(var cls, void* f0, void* f1) {
+  char* blk = calloc(1, sizeof(struct Header) + 2 * sizeof(var));
+  var inst = header_init(blk, cls, AllocHeap);
+  ((void**)inst)[0] = f0; ((void**)inst)[1] = f1;
+  return inst;
+}
+static void redefined_type(vh_rng* r) {
+  char nm[32]; snprintf(nm, sizeof nm, "Redef%ld", (long)vh_below(r, 1000000));
+  char* name = strdup(nm);
+  int with_size_instance = (int)vh_below(r, 2);
+  var T = with_size_instance ? new_root(Type, $S(name), $I(16), rd_instance(New, (void*)rdA_new, (void*)rdA_del), rd_instance(Size, (void*)rd_size40, NULL))
+                             : new_root(Type, $S(name), $I(16), rd_instance(New, (void*)rdA_new, (void*)rdA_del));
+  long c0[2] = { rd_ctor[0], rd_ctor[1] }, d0[2] = { rd_dtor[0], rd_dtor[1] };
+  /* first definition in use: every lookup it needs has happened */
+  var x = new_raw_with(T, tuple());
+  vh_evals(3);
+  size_t want1 = with_size_instance ? 40 : 16;
+  if (size(T) != want1 || type_of(x) != T) { vh_violation(K("runtime-type-first-definition", "new"), "first definition: size %zu (expected %zu)", size(T), want1); }
+  memset(x, 0x11, want1);
+  del_raw(x);
+  if (rd_ctor[0] - c0[0] != 1 || rd_dtor[0] - d0[0] != 1) { vh_violation(K("runtime-type-first-definition", "new"), "first definition: constructor ran %ld times, destructor %ld times", rd_ctor[0] - c0[0], rd_dtor[0] - d0[0]); }
+  /* second definition, in place: 64 bytes, another constructor and destructor, no Size instance */
+  var exc = NULL;
+  VH_CATCH(construct(T, $S(name), $I(64), rd_instance(New, (void*)rdB_new, (void*)rdB_del)), exc);
+  if (exc) { vh_violation(K("runtime-type-redefinition-raised", "construct"), "construct on a Type object in use raised %s", vh_exc_name(exc)); del_root(T); return; }
+  vh_evals(4);
+  if (size(T) != 64) { vh_violation(K("runtime-type-size-from-the-replaced-definition", "construct"), "after the type was constructed again with size 64 (first definition %s), size(T) is %zu", with_size_instance ? "had a Size instance saying 40" : "had size 16", size(T)); }
+  else {
+    c0[0] = rd_ctor[0]; c0[1] = rd_ctor[1]; d0[0] = rd_dtor[0]; d0[1] = rd_dtor[1];
+    var y = new_raw_with(T, tuple());            /* the new constructor fills all 64 bytes, the new destructor checks them */
+    if (type_of(y) != T) { vh_violation(K("wrong-type", "redefined type"), "object of the redefined type reports another type"); }
+    del_raw(y);
+    if (rd_ctor[1] - c0[1] != 1 || rd_dtor[1] - d0[1] != 1 || rd_ctor[0] != c0[0] || rd_dtor[0] != d0[0]) {
+      vh_violation(K("runtime-type-instances-from-the-replaced-definition", "construct"), "after the redefinition: new constructor %ld, new destructor %ld, old constructor %ld, old destructor %ld calls for one object made and deleted",
+                   rd_ctor[1] - c0[1], rd_dtor[1] - d0[1], rd_ctor[0] - c0[0], rd_dtor[0] - d0[0]);
+    }
+  }
+  vh_count("runtime_types_constructed_again_in_place");
+  del_root(T);
+}
+
 static void case_random(vh_rng* r, long index) {
   size_t n = 1 + vh_below(r, 90);
   vh_op("enumeration at container size %zu", n);
@@ -729,6 +780,7 @@ static void case_random(vh_rng* r, long index) {
   empty_sources(r); empty_sources(r);
   stack_object_frame((int)(index % 3));
   mutual_owners_released_once(r);
+  redefined_type(r);
   if (index % 4 == 0) { run_fresh_thread(); }
   vh_nontrivial();
 }
